@@ -11,6 +11,7 @@ for ID in "$@"; do
   echo "=== $ID with $(basename $(dirname "$PATCH"))/$(basename "$PATCH")"
   case "$ID" in
     C12) /verif/check "$ID" --tier quick 2>&1 | grep -E "VIOLATION|violation|exit=|HARNESS|KNOWN|FAILED|panicked" | cut -c1-400;;
+    C12S|C07S|C08S) /verif/shuttle/run.sh ${ID%S} --tier quick 2>&1 | grep -E "VIOLATION|violation|exit=|HARNESS|KNOWN|FAILED|panicked" | cut -c1-400; rm -f /verif/replays/C*-shuttle-*;;
     C07L|C08L) /verif/loom/run.sh ${ID%L} --tier quick 2>&1 | grep -E "VIOLATION|violation|exit=|HARNESS|KNOWN|FAILED|panicked" | cut -c1-400; rm -f /verif/replays/C0[78]-loom-*;;
     *) ( cd /verif/sim && cargo build --release --offline -q 2>&1 | grep -E "^error" -A 6 | head -20;  BIN=muxsim; case "$ID" in C01|C14|C19) BIN=syssim;; esac; VERIF_DIR="$SCR" ./target/release/$BIN check "$ID" --tier quick 2>&1 | grep -E "VIOLATION|^violation|exit=|HARNESS|KNOWN" | cut -c1-400 );;
   esac
